@@ -130,7 +130,7 @@ def main():
             {"name": "chunker", "path": "specs/Chunker.tla + specs/ChunkRange.tla + harness/src/chunker.rs + lib/prop_c08.py", "serves_properties": ["C08"], "kind_free_text": "TLA+ model checked by TLC; all behaviours replayed"},
             {"name": "members", "path": "specs/Members.tla + specs/MCMembers.tla + harness/src/members.rs + lib/prop_c18.py", "serves_properties": ["C18"], "kind_free_text": "TLA+ model checked by TLC; all edges replayed"},
             {"name": "ingest", "path": "specs/Ingest.tla + specs/TraceIngest.tla + harness/src/ingest.rs + lib/prop_c10.py", "serves_properties": ["C10"], "kind_free_text": "TLA+ model checked by TLC; traces of the real loop validated"},
-            {"name": "writepool", "path": "specs/WritePool.tla + specs/Locks.tla + harness/src/poolstress.rs + lib/prop_c20.py", "serves_properties": ["C20"], "kind_free_text": "TLA+ models checked by TLC; program extraction from recorded events"},
+            {"name": "writepool", "path": "specs/TraceWritePool.tla + specs/WritePool.tla + specs/Locks.tla + harness/src/poolstress.rs + lib/prop_c20.py", "serves_properties": ["C20"], "kind_free_text": "TLA+ models checked by TLC; program extraction from recorded events"},
             {"name": "subcatchup", "path": "specs/SubCatchUp.tla + harness/src/subrace.rs + lib/prop_c12.py", "serves_properties": ["C12"], "kind_free_text": "TLA+ model checked by TLC; schedule forcing with pause points; stream oracle"},
             {"name": "matcher", "path": "specs/Matcher.tla + harness/src/matchwalk.rs + lib/prop_c11.py", "serves_properties": ["C11"], "kind_free_text": "TLA+ model checked by TLC; differential oracle against SQLite on real subscriptions"},
             {"name": "updates", "path": "specs/Updates.tla + harness/src/updwalk.rs + lib/prop_c14.py", "serves_properties": ["C14"], "kind_free_text": "TLA+ model checked by TLC; real feed judged"},
